@@ -46,6 +46,12 @@ func sigClass(sig string) string {
 		return strings.Join(p[:len(p)-1], "/") // drop operand source
 	case "F2":
 		return p[0] + "/" + p[1]
+	case "F5":
+		if len(p) >= 3 {
+			return p[0] + "/" + p[1] + "/" + p[2]
+		}
+	case "F15ops":
+		return strings.Join(p[:len(p)-1], "/")
 	case "F3":
 		return shapeClass(sig)
 	case "F4acc":
